@@ -48,8 +48,14 @@ RecipTrees == {Bin("times", Un(r, Two), Un(Recip[r], Two)) : r \in DOMAIN Recip}
               \cup {Bin("plus", Bin("times", Un("csc", Two), Un("sin", Two)), B), Bin("times", Un("sin", Un("arccsc", Un("minus", Two))), Un("minus", Two))}
 Consts == {N("true", <<>>), N("false", <<>>)} \cup {Bin("and", [op |-> "true"], Bin("lt", A, B)), Bin("or", [op |-> "false"], Bin("lt", A, B)), Un("not", [op |-> "true"]),
           Pw(<<<<A, [op |-> "true"]>>>>, B), Pw(<<<<A, [op |-> "false"]>>>>, B)}
+\* negative numbers wherever an operand can stand (a minus sign next to an operator), and numbers in their other spellings
+Neg == Cn(-7, 1)
+NegConst == UNION {{Bin(c, Neg, A), Bin(c, A, Neg), Bin(c, Neg, Cn(-2, 1))} : c \in Arith} \cup {Un(u, Neg) : u \in Unary} \cup {Un("minus", Un("minus", Neg)), Un("minus", Cn(-1, 2))}
+            \cup {Bin(r, Neg, A) : r \in {"lt", "eq"}} \cup {Pw(<<<<Neg, Bin("lt", A, Neg)>>>>, Un("minus", Neg))}
+NumForms == {"enot", "dot"}      \* (a cn of type real holds a basic real: no exponent there; exponents are spelled in initial values, Gen_Codegen)
+Spellings == UNION {{CnF(3, 1, f), CnF(-3, 1, f), CnF(1, 2, f), Bin("plus", A, CnF(3, 1, f)), Un("minus", CnF(-3, 1, f)), Bin("power", A, CnF(2, 1, f)), Bin("minus", A, CnF(-3, 1, f))} : f \in NumForms}
 Leaves == {A, Cn(3, 1), Cn(1, 2), Cn(-7, 1), Cn(5, 4), Un("minus", Cn(3, 1))}
-AllTrees == Arith2 \cup Nary \cup Unary2 \cup Rel1 \cup Logic2 \cup RelNest \cup Piecewise \cup Quals \cup Funs \cup RecipTrees \cup (Consts \ {N("true", <<>>), N("false", <<>>)}) \cup {[op |-> "true"], [op |-> "false"]} \cup Leaves
+AllTrees == Arith2 \cup Nary \cup Unary2 \cup Rel1 \cup Logic2 \cup RelNest \cup Piecewise \cup Quals \cup Funs \cup RecipTrees \cup (Consts \ {N("true", <<>>), N("false", <<>>)}) \cup {[op |-> "true"], [op |-> "false"]} \cup Leaves \cup NegConst \cup Spellings
 QuickTrees == {t \in AllTrees : TRUE}
 Envs == <<[a |-> I(2), b |-> I(3), c |-> I(5)], [a |-> I(-3), b |-> I(2), c |-> Q(1, 2)], [a |-> I(7), b |-> I(7), c |-> I(-2)], [a |-> Q(3, 2), b |-> I(-1), c |-> I(4)]>>
 =============================================================================
